@@ -1,5 +1,6 @@
 SPECIFICATION Spec
 CONSTANT Which = "C17"
+CONSTANT TinyLen = 8
 CONSTANT SmallLen = 6
 CONSTANT AsBuilt = {}
 CONSTANT MaxLen = 4
